@@ -403,6 +403,34 @@ def op_jitvmap(a):
     return json.dumps(res)
 
 
+DIRECTED_XML = {
+    # a joint limit that is not active: d.nl = 0, MJX's static nl = 1
+    "inactive-limit": "<mujoco><worldbody><body><joint type='hinge' axis='0 1 0' limited='true' range='-1 1'/>"
+                      "<geom size='.1' contype='0' conaffinity='0'/></body></worldbody></mujoco>",
+    # a contact inside the margin but not penetrating: dist = 0.02 > 0
+    "margin-contact": "<mujoco><worldbody><geom type='plane' size='5 5 .1' margin='0.05'/><body pos='0 0 .12'><freejoint/>"
+                      "<geom size='.1'/></body></worldbody></mujoco>",
+}
+
+
+def op_directed(_a):
+    """fixed inputs on which put_data/get_data and make_data were confirmed to deviate (stable oracle keys)"""
+    out = {}
+    for name, xml in DIRECTED_XML.items():
+        mm = mujoco.MjModel.from_xml_string(xml)
+        d = mujoco.MjData(mm)
+        mujoco.mj_forward(mm, d)
+        d2 = mjx.get_data(mm, mjx.put_data(mm, d))
+        a = mjx.make_data(mm)
+        out[name] = {"xml": xml,
+                     "orig": {k: int(getattr(d, k)) for k in ("ne", "nf", "nl", "nefc", "ncon")},
+                     "roundtrip": {k: int(getattr(d2, k)) for k in ("ne", "nf", "nl", "nefc", "ncon")},
+                     "orig_contact_dist": [float(x) for x in np.asarray(d.contact.dist)],
+                     "get_data_of_make_data_ncon": int(mjx.get_data(mm, a).ncon),
+                     "get_data_of_put_data_fresh_ncon": int(mjx.get_data(mm, mjx.put_data(mm, mujoco.MjData(mm))).ncon)}
+    return json.dumps(out)
+
+
 def op_env():
     sys.path.insert(0, VERIF)
     from gen import enums
@@ -440,6 +468,8 @@ def main():
                 out = op_makedata(w[1:])
             elif w[0] == "jitvmap" and len(w) == 4:
                 out = op_jitvmap(w[1:])
+            elif w[0] == "directed" and len(w) == 1:
+                out = op_directed(w[1:])
             elif w[0] == "sizes" and len(w) == 1:
                 out = " ".join("%s=%d" % (k, int(getattr(S["mm"], k))) for k in SIZE_NAMES)
             else:
